@@ -15,6 +15,8 @@ def gen_case(rng, kind, guided):
     nd = rng.choice([0, 1, 1, 2, 2, 3])
     deps = [rng.choice(DEPS) for _ in range(nd)]            # duplicates possible (dependency + X.output)
     spawn_ok = 0 if (kind == 'S' and rng.random() < 0.12) else 1
+    if kind == 'B' and rng.random() < 0.15:
+        spawn_ok = 2            # skip mode: every execution ends `Skipped (Not Modified)` by itself
     ev = []
     own = [k for k in KINDS] if kind == 'G' else [kind]
 
@@ -67,6 +69,9 @@ CORPUS = [
     ('B', [1], 1, ['Rq:B:R', 'Ok:B:1:1', 'Ok:S:1:0', 'BD:C', 'Rq:B:7', 'Rq:S:7', 'TM']),
     ('B', [1, 2], 1, ['Rq:B:R', 'Ok:B:1:1', 'Ok:S:1:0', 'Ok:B:2:1', 'Ok:S:2:0', 'IN', 'BD:C', 'BD:C', 'Rq:B:7', 'TM']),
     ('B', [], 1, ['Rq:B:R', 'BD:F', 'Rq:B:3', 'TM']),
+    # skip mode (the execution ends `Skipped (Not Modified)`): a late requester is acknowledged all the same; invalidation re-runs
+    ('B', [], 2, ['Rq:B:R', 'Rq:B:7', 'Rq:S:7', 'TM']),
+    ('B', [1], 2, ['Rq:B:R', 'Ok:B:1:1', 'Ok:S:1:0', 'Rq:B:7', 'IN', 'Rq:B:5', 'Iv:B:1', 'Ok:B:1:1', 'TM']),
     ('B', [], 1, ['Rq:B:R', 'TM']),
     ('B', [1], 1, ['Rq:B:R', 'Ok:B:1:1', 'Ok:S:1:1', 'Iv:B:1', 'BD:C', 'Ok:B:1:1', 'BD:C', 'TM']),
     ('B', [1], 1, ['Rq:B:R', 'Ok:B:1:1', 'Ok:S:1:1', 'Iv:S:1', 'BD:C', 'TM']),
@@ -118,13 +123,19 @@ def run(ck, n_cases, project=None, late_ack=True, shards=12, what='full result')
     final = {}
     expected = {}
     for cid, (kind, deps, sp, ev) in cases.items():
-        res = model[cid].split('|')
-        kept = [(e, r) for e, r in zip(ev, res) if r != '-']
+        line = model[cid]
+        bds = None
+        if ' #bd=' in line:
+            line, b = line.split(' #bd=')
+            bds = [int(x) for x in b.split(',')] if b else []
+        res = line.split('|')
+        kept = [(e, r, (bds[j] if bds else 0)) for j, (e, r) in enumerate(zip(ev, res)) if r != '-']
         hinted = []
-        for e, r in kept:
+        for e, r, nbd in kept:
             nout = 0 if r.startswith('out=[]') else r[len('out=['):r.index(']')].count(',') + 1
             nstart = int(re.search(r'starts=(\d+)', r).group(1))
-            hinted.append('%s@%d,%d' % (e, nout, nstart))
+            hinted.append('%s@%d,%d,%d' % (e, nout, nstart, nbd))
+        kept = [(e, r) for e, r, _ in kept]
         final[cid] = (kind, deps, sp, [e for e, _ in kept], hinted)
         expected[cid] = [r for _, r in kept]
     # pass 2: implementation, sharded
